@@ -16,3 +16,8 @@ func VHQueueStep() {
 	containers.VLinStep(containers.VLin{C: q, Push: q.Enqueue, Pop: q.Dequeue, Peek: q.Peek,
 		Inv: func() { v.Assert(q.list != nil, "inv-list") }}, pre)
 }
+
+func VHIter() {
+	q, pre := VGQueue()
+	containers.VIterStep(func() containers.IteratorWithIndex[int] { return q.Iterator() }, pre, q)
+}
